@@ -246,7 +246,7 @@ CLAIMED = {
              "(leaves of 16/8/4/2, breadth-first radix-4 passes with an initial radix-2 pass for odd log2 m, recursive halving, "
              "twiddle exponents as the fill_* functions compute them) as a symbolic machine over exponents of w = exp(2 pi i/4m), "
              "and TLC checks one monomial per (output, input) and output j = evaluation at w^(1+4 bitrev j) for m = 1..256 in both "
-             "regimes. The code is bound to it by impulse probes of all 16 implementations (reference, AVX2/FMA drivers with the "
+             "regimes; FftInverse.tla transcribes reim_ifft_ref.c and TLC checks inverse o forward = m * identity (m <= 64). The code is bound to it by impulse probes of all 16 implementations (reference, AVX2/FMA drivers with the "
              "assembly leaves, dispatch under both CPU masks, *_simple; reim and cplx; forward and inverse) for every m = 1..4096 and "
              "65536 (thorough: every m), each output classified to a 4m-th root of unity and the exponents validated by TLC, plus "
              "bit-identical repeated calls and unchanged table bytes; the real tables (m<=2048) are compared with the table "
@@ -254,7 +254,7 @@ CLAIMED = {
              "random inputs against an 80-bit long double evaluation of the documented map) and the bound is evaluated by TLC.",
         design_ref="DESIGN.md section 4 C06, section 6",
         note="TLA+ has no reals: the norm clause is measured, not derived (level 'other'). Trusted: TLC, numpy long double reference "
-             "(64-bit significand, about 2000x finer than the bound), mpmath for the table check. The inverse and the cplx schedules "
+             "(64-bit significand, about 2000x finer than the bound), mpmath for the table check. The cplx schedules "
              "are not transcribed; they are bound by probes only. Observed errors are about 10% of the bound.",
         technique="TLA+ symbolic schedule model checked with TLC + TLC trace validation of impulse-response exponents + measured error norm judged by TLC"),
 }
